@@ -82,6 +82,7 @@ C01_Prune(pre, post, s) ==
         need  == Cardinality(h) - (N - 1)
         depRank == Cardinality({r \in h : r <= dep})
     IN /\ dep \notin gone
+       /\ MaxOf(s.crs) \in Revs(post.store)                                       \* never the newest one
        /\ \A d \in gone : \A r \in h : (r < d /\ r # dep) => r \in gone          \* only the oldest
        /\ \/ Cardinality(Revs(post.store)) <= N
           \/ /\ Cardinality(Revs(post.store)) = N + 1
